@@ -168,9 +168,11 @@ def call_name_of(node):
     return None
 
 
-def nodes_with_guards(fnode, pred):
+def nodes_with_guards(fnode, pred, early=False):
     """[(node, [guard test text, ...])] for every AST node satisfying ``pred``; guards are the tests of the
-    enclosing if/elif/while statements (negated as 'not (...)' on else paths, including earlier elif tests)."""
+    enclosing if/elif/while statements (negated as 'not (...)' on else paths, including earlier elif tests).
+    With ``early=True`` the statements following an ``if T: ... return/raise/continue/break`` (no else) in the same
+    block additionally carry the guard ``not (T)``."""
     out = []
 
     def rec(stmts, guards):
@@ -182,6 +184,8 @@ def nodes_with_guards(fnode, pred):
                         out.append((n, guards))
                 rec(st.body, guards + [t])
                 rec(st.orelse, guards + [f'not ({t})'])
+                if early and not st.orelse and st.body and isinstance(st.body[-1], (ast.Return, ast.Raise, ast.Continue, ast.Break)):
+                    guards = guards + [f'not ({t})']
             elif isinstance(st, (ast.For, ast.AsyncFor)):
                 for n in ast.walk(st.iter):
                     if pred(n):
